@@ -235,12 +235,14 @@ func finalProfile(r *rand.Rand, idx int, tier string) *eng.Case {
 	}
 	c := baseCase(r, plansOf(r, &g, n))
 	c.GraceMS = 40
+	// the context handed to Start is cancelled right after Start returned (documented not to stop the run)
+	c.CancelStartCtx = idx%5 == 3
 	return c
 }
 
 // attemptsProfile: retry budgets and outcome scripts over all five outcomes; small timeouts through direct create.
 func attemptsProfile(r *rand.Rand, idx int, tier string) *eng.Case {
-	outs := []string{plug.Transient, plug.Transient, plug.Permanent, plug.OK, plug.OK, plug.WrongType, plug.WrongTypeErr, plug.Overrun}
+	outs := []string{plug.Transient, plug.Transient, plug.Permanent, plug.OK, plug.OK, plug.WrongType, plug.WrongTypeErr, plug.WrongPtr, plug.Overrun}
 	mk := func() spec.Action {
 		a := spec.Action{Retries: r.Intn(5), Pointer: r.Intn(3) == 0, TimeoutMS: 2000}
 		n := 1 + r.Intn(a.Retries+2)
@@ -395,6 +397,13 @@ func contProfile(r *rand.Rand, idx int, tier string) *eng.Case {
 }
 
 func persistProfile(r *rand.Rand, idx int, tier string) *eng.Case {
+	if idx%10 == 3 {
+		// attempts that overrun their (60 ms) timeout, wrong-type responses, exhausted budgets: the result of
+		// every attempt must still be durable before the next attempt begins
+		c := attemptsProfile(r, idx, tier)
+		c.VaultDelayUS = []int{300, 1500}[r.Intn(2)]
+		return c
+	}
 	g := gen.Base()
 	g.MaxRetries = 3
 	g.PTransient = 0.35
@@ -671,7 +680,7 @@ func init() {
 	})
 	register(&Prop{
 		ID: "C05", Level: "exploration", Batch: 16, PerCaseTimeout: 90 * time.Second,
-		Rule:  "case i = PRNG(seed,i) plan whose every action has Retries 0-4 and a script of up to Retries+2 outcomes over {ok, transient, permanent, wrongtype, wrongtype together with a retryable error, overrun}; stored through vault.Create so that overrun actions can have a 60 ms timeout; every 10th case explores every crash point of a strictly sequential plan with retry budgets and transient failures and checks the call budget against the durable attempts, the total number of calls across the crash and the final attempt record; non-trivial = the case contained a retried, overrun or wrong-type invocation; distinct by script hash",
+		Rule:  "case i = PRNG(seed,i) plan whose every action has Retries 0-4 and a script of up to Retries+2 outcomes over {ok, transient, permanent, wrongtype, wrongtype together with a retryable error, right type with the wrong pointer-ness, overrun}; stored through vault.Create so that overrun actions can have a 60 ms timeout; every 10th case explores every crash point of a strictly sequential plan with retry budgets and transient failures and checks the call budget against the durable attempts, the total number of calls across the crash and the final attempt record; non-trivial = the case contained a retried, overrun or wrong-type invocation; distinct by script hash",
 		Cases: nCases(80, 2500),
 		Run: everyNth(10, c05Crash, engineRun("C05", attemptsProfile, func(c *eng.Case, run *eng.Run, pr *eng.PlanRun, t *oracle.Trace, res *CaseResult) {
 			res.Viols = append(res.Viols, oracle.C05(pr.Spec, t, pr.P0)...)
@@ -741,7 +750,7 @@ func init() {
 	})
 	register(&Prop{
 		ID: "C08", Level: "exploration", Batch: 16, PerCaseTimeout: 70 * time.Second,
-		Rule:  "case i = PRNG(seed,i) from the 'order' profile with retries and vault delays of up to 3 ms before/after every storage call; every second case (single plan) has a goroutine polling Plan(id) every 3 ms; every tenth case is a fault case: a strictly sequential plan runs in a grandchild process on a vault whose PRNG-chosen k-th write fails, every event journalled synchronously: no plugin invocation may begin after the failed write and Wait must not return; distinct by final-status hash",
+		Rule:  "case i = PRNG(seed,i) from the 'order' profile with retries and vault delays of up to 3 ms before/after every storage call; every second case (single plan) has a goroutine polling Plan(id) every 3 ms; every tenth case uses the C05 script alphabet (overrun, wrong type, exhausted budgets; 60 ms timeouts through vault.Create); every tenth case is a fault case: a strictly sequential plan runs in a grandchild process on a vault whose PRNG-chosen k-th write fails, every event journalled synchronously: no plugin invocation may begin after the failed write and Wait must not return; distinct by final-status hash",
 		Cases: nCases(300, 6000),
 		Run: c08Dispatch(engineRun("C08", persistProfile, func(c *eng.Case, run *eng.Run, pr *eng.PlanRun, t *oracle.Trace, res *CaseResult) {
 			res.Viols = append(res.Viols, oracle.C08(pr.Spec, t, pr.P0)...)
